@@ -240,6 +240,10 @@ def gen_spec(rng, *, pool=None, n_base=None, max_len=4, labels=None, with_m=None
         structs.insert(rng.randrange(len(structs) + 1), 'M')
     bprobs = prob_vector(rng, len(structs), rng.choice([pool, 'equal', 'counts']))
     base = [[s, p] for s, p in zip(structs, bprobs)]
+    if len(base) >= 2 and rng.random() < 0.25:
+        # the base-structure list in another order than by descending probability (a hand-edited or re-weighted grammar.txt): the loader reads every line and
+        # the queue is seeded with all structures, so the order of the lines carries no meaning
+        rng.shuffle(base)
     terms = {}
     used = set()
     for s in structs:
@@ -271,8 +275,10 @@ def gen_spec(rng, *, pool=None, n_base=None, max_len=4, labels=None, with_m=None
     return spec
 
 
-ODD_ALPHA = {1: ['ß', 'ŉ', 'ǰ', 'ﬁ', 'ΐ', 'ı', 'ſ', 'ǆ'], 2: ['ßa', 'aß', 'ŉo', 'ﬂy', 'ǆe'], 3: ['fuß', 'ßen', 'aŉb', 'ǰaz', 'ﬁre', 'ǆem'], 4: ['weiß', 'fußb', 'ßßßß', 'oﬃc', 'ßeta'],
-             5: ['straß', 'große', 'maßes', 'ǆungl']}
+# besides letters with unusual case mappings: letters without any case (CJK, kana, Thai, Hebrew, Arabic) - a mask changes nothing, but every (word, mask)
+# combination is still one guess
+ODD_ALPHA = {1: ['ß', 'ŉ', 'ǰ', 'ﬁ', 'ΐ', 'ı', 'ſ', 'ǆ', '中', 'あ', 'ש'], 2: ['ßa', 'aß', 'ŉo', 'ﬂy', 'ǆe', '中文', '日本', 'שם'], 3: ['fuß', 'ßen', 'aŉb', 'ǰaz', 'ﬁre', 'ǆem', 'ไทย', 'パスワ', 'سلا'],
+             4: ['weiß', 'fußb', 'ßßßß', 'oﬃc', 'ßeta', '中文密码', 'שלום'], 5: ['straß', 'große', 'maßes', 'ǆungl', 'こんにちは', 'مرحبا']}
 
 def add_odd_alpha(rng, spec, k=3):
     """Add alpha words with letters whose upper() is longer than one character, not reversible, or differs from title case (sharp s, n-apostrophe,
